@@ -805,13 +805,20 @@ func checkSchedulerUpdate(p *core.Prog, r *core.Report, rule string) {
 	r.Check(okQ, rule, "loop.Quit", "loop.Quit wraps the error into the message that ends Run", "QuitMsg not built", p.Pos(qf.Pos()))
 }
 
-// checkDependencyTable (C05.R3): per state of a lower stage of the same
-// segment, dependenciesCompleted accepts, accepts only if the previous
-// segment's parent stage is complete, or rejects.
+// checkDependencyTable (C05.R3): a job of unit (segment, stage) loads, when it starts, the full store of EVERY lower
+// stage at the first block of its segment.  dependenciesCompleted therefore
+//   - (every-lower-stage) lets an iteration of its loop over the lower stages go on only after the unit (segment-1, i)
+//     was found Completed or NoOp — for each lower stage i, not only the direct parent, whatever the state of (segment, i)
+//     and also on the first segment of the unit's own stage (a lower stage may start earlier);
+//   - (early-true) answers true before the loop only for stage 0;
+//   - (state table) accepts a lower unit of the same segment in the states Completed, NoOp, Shadowed, PartialPresent
+//     and rejects any other state;
+//   - previousUnitComplete reads (segment-1, same stage) and accepts exactly Completed and NoOp.
 func checkDependencyTable(p *core.Prog, r *core.Report) {
 	fn := p.Func(pkgStage, "Stages.dependenciesCompleted")
 	r.Touch(core.FuncName(fn))
 	getState := p.FuncObj(pkgStage, "Stages.getState")
+	prevFn := p.FuncObj(pkgStage, "Stages.previousUnitComplete")
 	stT := p.Named(pkgStage, "UnitState")
 	names := map[string]string{}
 	for _, c := range core.EnumConsts(stT) {
@@ -822,58 +829,152 @@ func checkDependencyTable(p *core.Prog, r *core.Report) {
 		core.Undecide("dependenciesCompleted: expected one loop over the lower stages, found %d", len(loops))
 	}
 	l := loops[0]
-	var stateCall, prevCall *ssa.Call
-	core.Instrs(fn, func(in ssa.Instruction) {
-		c, ok := in.(*ssa.Call)
-		if !ok || core.CommonCallee(c.Common()) != getState {
-			return
-		}
-		if l.Body[c.Block()] {
-			stateCall = c
-		} else {
-			prevCall = c
-		}
-	})
-	if stateCall == nil || prevCall == nil {
-		core.Undecide("dependenciesCompleted: state reads not found")
+	_, ind := l.InductionDir()
+	if ind == nil {
+		core.Undecide("dependenciesCompleted: loop counter not recognised")
 	}
-	header := l.Header.Instrs[0]
-	isRetFalse := func(in ssa.Instruction) bool {
-		ret, ok := in.(*ssa.Return)
-		if !ok || len(ret.Results) != 1 {
+	uParam := fn.Params[1]
+	// the fields of a Unit value passed as argument: the literal's Segment and Stage
+	unitFields := func(v ssa.Value) (seg, stg ssa.Value) {
+		u, ok := v.(*ssa.UnOp)
+		if !ok {
+			return nil, nil
+		}
+		al, ok := u.X.(*ssa.Alloc)
+		if !ok {
+			return nil, nil
+		}
+		lf := core.LiteralFields(al)
+		if len(lf["Segment"]) == 1 {
+			seg = lf["Segment"][0]
+		}
+		if len(lf["Stage"]) == 1 {
+			stg = lf["Stage"][0]
+		}
+		return
+	}
+	isUField := func(v ssa.Value, name string) bool {
+		v = core.SkipConv(v)
+		if f, ok := v.(*ssa.Field); ok {
+			return f.X == ssa.Value(uParam) && core.FieldOfValue(f) != nil && core.FieldOfValue(f).Name() == name
+		}
+		f, base := core.LoadedField(v)
+		if f == nil || f.Name() != name {
 			return false
 		}
-		k, ok := ret.Results[0].(*ssa.Const)
-		return ok && k.Value != nil && k.Value.ExactString() == "false"
+		// u spilled to a local cell
+		return base != nil && (base == ssa.Value(uParam) || core.OperandSlice(base)[uParam])
 	}
-	// edges on which the previous segment's parent is Completed / NoOp
+	isStateConst := func(want ...string) func(ssa.Value) bool {
+		return func(v ssa.Value) bool {
+			k, ok := v.(*ssa.Const)
+			if !ok || k.Value == nil {
+				return false
+			}
+			for _, w := range want {
+				if names[k.Value.ExactString()] == w {
+					return true
+				}
+			}
+			return false
+		}
+	}
+	// edges of the loop body on which (segment-1, i) is known Completed/NoOp
 	var prevOK []core.Edge
 	core.Instrs(fn, func(in ssa.Instruction) {
 		ifi, ok := in.(*ssa.If)
-		if !ok {
+		if !ok || !l.Body[ifi.Block()] {
 			return
 		}
-		onT, onF, ok := core.CondRelation(ifi.Cond, func(v ssa.Value) bool { return v == ssa.Value(prevCall) }, func(v ssa.Value) bool {
+		c, neg := core.StripNot(ifi.Cond)
+		call, ok := c.(*ssa.Call)
+		if !ok || core.CommonCallee(call.Common()) != prevFn {
+			return
+		}
+		seg, stg := unitFields(call.Call.Args[len(call.Call.Args)-1])
+		if seg == nil || stg == nil || !isUField(seg, "Segment") || core.SkipConv(stg) != ssa.Value(ind) {
+			return
+		}
+		idx := 0
+		if neg {
+			idx = 1
+		}
+		prevOK = append(prevOK, core.Edge{From: ifi.Block(), Idx: idx})
+	})
+	header := l.Header.Instrs[0]
+	isRet := func(val string) func(ssa.Instruction) bool {
+		return func(in ssa.Instruction) bool {
+			ret, ok := in.(*ssa.Return)
+			if !ok || len(ret.Results) != 1 {
+				return false
+			}
+			k, ok := ret.Results[0].(*ssa.Const)
+			return ok && k.Value != nil && k.Value.ExactString() == val
+		}
+	}
+	isRetFalse, isRetTrue := isRet("false"), isRet("true")
+	// every-lower-stage
+	okEvery := len(prevOK) > 0
+	for _, s := range l.Header.Succs {
+		if !l.Body[s] || s == l.Header {
+			continue
+		}
+		q := core.PathQuery{Fn: fn, CutEdge: func(e core.Edge) bool { return containsEdge(prevOK, e) }}
+		if _, reach := q.CanReach(s.Instrs[0], func(x ssa.Instruction) bool { return x == header || isRetTrue(x) }); reach || s.Instrs[0] == header {
+			okEvery = false
+		}
+	}
+	// the loop visits every lower stage: its only early ways out are `return false`
+	for _, e := range l.EarlyExits {
+		tgt := e.From.Succs[e.Idx]
+		if !isRetFalse(tgt.Instrs[len(tgt.Instrs)-1]) || len(tgt.Instrs) != 1 {
+			okEvery = false
+		}
+	}
+	r.Check(okEvery, "C05.R3", "dependenciesCompleted/every-lower-stage", "for EACH lower stage i the loop goes on (or the function answers true) only after previousUnitComplete(Unit{u.Segment, i}) held: the job loads the full store of every lower stage at its first block, so each of them must be complete up to the previous segment", fmt.Sprintf("%d tests of the previous segment of the lower stage in the loop", len(prevOK)), p.Pos(fn.Pos()))
+	// early-true
+	var stage0 []core.Edge
+	core.Instrs(fn, func(in ssa.Instruction) {
+		ifi, ok := in.(*ssa.If)
+		if !ok || l.Body[ifi.Block()] {
+			return
+		}
+		onT, onF, ok := core.CondRelation(ifi.Cond, func(v ssa.Value) bool { return isUField(v, "Stage") }, func(v ssa.Value) bool {
 			k, ok := v.(*ssa.Const)
-			return ok && k.Value != nil && (names[k.Value.ExactString()] == "Completed" || names[k.Value.ExactString()] == "NoOp")
+			return ok && k.Value != nil && k.Value.ExactString() == "0"
 		})
 		if !ok {
 			return
 		}
 		if onT == core.OrdEQ {
-			prevOK = append(prevOK, core.Edge{From: ifi.Block(), Idx: 0})
-		} else if onF == core.OrdEQ {
-			prevOK = append(prevOK, core.Edge{From: ifi.Block(), Idx: 1})
+			stage0 = append(stage0, core.Edge{From: ifi.Block(), Idx: 0})
+		}
+		if onF == core.OrdEQ {
+			stage0 = append(stage0, core.Edge{From: ifi.Block(), Idx: 1})
 		}
 	})
+	q0 := core.PathQuery{Fn: fn, CutEdge: func(e core.Edge) bool { return containsEdge(stage0, e) }, CutInstr: func(x ssa.Instruction) bool { return x == header }}
+	_, early := q0.CanReach(nil, isRetTrue)
+	r.Check(!early, "C05.R3", "dependenciesCompleted/early-true", "before looking at the lower stages the answer is true only for stage 0 (not, e.g., for the first segment of a stage: a lower stage may start earlier)", "a `return true` is reachable without entering the loop and without stage == 0", p.Pos(fn.Pos()))
+	// state table of the same-segment lower unit
+	var stateCall *ssa.Call
+	core.Instrs(fn, func(in ssa.Instruction) {
+		c, ok := in.(*ssa.Call)
+		if !ok || core.CommonCallee(c.Common()) != getState || !l.Body[c.Block()] {
+			return
+		}
+		seg, stg := unitFields(c.Call.Args[len(c.Call.Args)-1])
+		if seg != nil && stg != nil && isUField(seg, "Segment") && core.SkipConv(stg) == ssa.Value(ind) {
+			stateCall = c
+		}
+	})
+	if stateCall == nil {
+		core.Undecide("dependenciesCompleted: read of the state of (segment, i) not found")
+	}
 	classify := func(start *ssa.BasicBlock) string {
 		first := start.Instrs[0]
-		toHeader, toFalse := false, false
-		if first == header {
-			toHeader = true
-		} else if isRetFalse(first) {
-			toFalse = true
-		} else {
+		toHeader, toFalse := first == header, isRetFalse(first)
+		if !toHeader && !toFalse {
 			q := core.PathQuery{Fn: fn, CutInstr: func(x ssa.Instruction) bool { return x == header || isRetFalse(x) }}
 			_, toHeader = q.CanReach(first, func(x ssa.Instruction) bool { return x == header })
 			_, toFalse = q.CanReach(first, isRetFalse)
@@ -884,12 +985,7 @@ func checkDependencyTable(p *core.Prog, r *core.Report) {
 		case !toHeader && toFalse:
 			return "reject"
 		case toHeader && toFalse:
-			// continuing requires the previous segment's parent to be complete
-			q := core.PathQuery{Fn: fn, CutEdge: func(e core.Edge) bool { return containsEdge(prevOK, e) }, CutInstr: func(x ssa.Instruction) bool { return isRetFalse(x) }}
-			if _, reach := q.CanReach(first, func(x ssa.Instruction) bool { return x == header }); !reach && len(prevOK) > 0 {
-				return "needs-previous-segment-parent-complete"
-			}
-			return "conditional-on-something-else"
+			return "conditional"
 		}
 		return "?"
 	}
@@ -914,7 +1010,7 @@ func checkDependencyTable(p *core.Prog, r *core.Report) {
 	if defBlock != nil {
 		got["other"] = classify(defBlock)
 	}
-	want := map[string]string{"Completed": "accept", "NoOp": "accept", "Shadowed": "needs-previous-segment-parent-complete", "PartialPresent": "needs-previous-segment-parent-complete", "other": "reject"}
+	want := map[string]string{"Completed": "accept", "NoOp": "accept", "Shadowed": "accept", "PartialPresent": "accept", "other": "reject"}
 	var ks []string
 	for k := range want {
 		ks = append(ks, k)
@@ -930,6 +1026,52 @@ func checkDependencyTable(p *core.Prog, r *core.Report) {
 		if !ok {
 			w = "reject"
 		}
-		r.Check(got[k] == w, "C05.R3", "dependenciesCompleted/"+k, fmt.Sprintf("a lower stage of the same segment in state %s: %s", k, w), "classified as "+got[k], p.Pos(fn.Pos()))
+		r.Check(got[k] == w, "C05.R3", "dependenciesCompleted/"+k, fmt.Sprintf("a lower stage of the same segment in state %s (its previous segment being complete): %s", k, w), "classified as "+got[k], p.Pos(fn.Pos()))
 	}
+	// previousUnitComplete
+	pf := p.Func(pkgStage, "Stages.previousUnitComplete")
+	r.Touch(core.FuncName(pf))
+	okPrev := false
+	var accepted []string
+	for _, c := range core.FindInstrs(pf, core.IsCallTo(getState)) {
+		call := c.(*ssa.Call)
+		seg, stg := unitFields(call.Call.Args[len(call.Call.Args)-1])
+		if seg == nil || stg == nil {
+			continue
+		}
+		sub, ok := core.SkipConv(seg).(*ssa.BinOp)
+		if !ok || sub.Op != token.SUB {
+			continue
+		}
+		k, ok := sub.Y.(*ssa.Const)
+		if !ok || k.Value.ExactString() != "1" {
+			continue
+		}
+		pu := pf.Params[1]
+		fld := func(v ssa.Value, name string) bool {
+			v = core.SkipConv(v)
+			if f, ok := v.(*ssa.Field); ok {
+				return f.X == ssa.Value(pu) && core.FieldOfValue(f).Name() == name
+			}
+			f, base := core.LoadedField(v)
+			return f != nil && f.Name() == name && base != nil && (base == ssa.Value(pu) || core.OperandSlice(base)[pu])
+		}
+		if !fld(sub.X, "Segment") || !fld(stg, "Stage") {
+			continue
+		}
+		okPrev = true
+		// the states accepted: every comparison of the state in the returned expression
+		for _, ref := range *call.Referrers() {
+			if bo, ok := ref.(*ssa.BinOp); ok && bo.Op == token.EQL {
+				if kk, ok := bo.Y.(*ssa.Const); ok {
+					accepted = append(accepted, names[kk.Value.ExactString()])
+				}
+			} else if _, ok := ref.(*ssa.BinOp); ok {
+				accepted = append(accepted, "?")
+			}
+		}
+	}
+	sort.Strings(accepted)
+	r.Check(okPrev && strings.Join(accepted, ",") == "Completed,NoOp", "C05.R3", "previousUnitComplete", "previousUnitComplete(u) reads the unit (u.Segment-1, u.Stage) and holds exactly for the states Completed and NoOp", fmt.Sprintf("reads (segment-1, stage): %v; states accepted: %v", okPrev, accepted), p.Pos(pf.Pos()))
+	_ = isStateConst
 }
